@@ -2,7 +2,7 @@
 """Regenerates MANIFEST.json from props.json (claimed checks) and not_applicable.json."""
 import json, os
 ROOT = os.path.dirname(os.path.dirname(os.path.abspath(__file__)))
-props = json.load(open(os.path.join(ROOT, "props.json")))
+props = {f[:-5]: json.load(open(os.path.join(ROOT, "props", f))) for f in sorted(os.listdir(os.path.join(ROOT, "props"))) if f.endswith(".json")}
 na_path = os.path.join(ROOT, "not_applicable.json")
 na = json.load(open(na_path)) if os.path.exists(na_path) else []
 checks = []
@@ -21,7 +21,7 @@ for pid in sorted(props):
     })
 m = {
     "version": 1,
-    "setup_cmd": "cd /verif/lean && lake build && cd /verif/harness && CARGO_NET_OFFLINE=true cargo build --offline && CARGO_NET_OFFLINE=true cargo build --offline --release",
+    "setup_cmd": "cd /verif && ./check --setup",
     "hooks": {
         "guard": "gimli_verif",
         "enable": "none needed: every observation uses gimli's public API (RUSTFLAGS='--cfg gimli_verif' would enable hooks if any existed)",
